@@ -222,7 +222,13 @@ class FS:
                 raise Unspecified("overwrite requested with a missing source")
             raise MustFail("source does not exist")
         if need_dst_free and df in self.files and self.exists(df, dp):
-            raise Unspecified("destination path is occupied")
+            root = self.objs[self.files[df]]
+            free_root = (not self.parts(dp) and sf != df and root.get("cooler") is None
+                         and not (set(root["children"]) & set(self.objs[s[1]]["children"])))
+            if not free_root:
+                # (a cross-file copy INTO the root of an existing file is defined when that root holds no collection and none of the
+                # source's members clashes with a member of the root: the members are copied in, the attributes are taken over)
+                raise Unspecified("destination path is occupied")
         return s
 
     def op_cp(self, sf, sp, df, dp, overwrite=False):
